@@ -161,7 +161,7 @@ fn exec_cmd(args: &[String]) {
         let map = if uses_menu { MapMode::A } else { [MapMode::A, MapMode::B, MapMode::C][r.below(3) as usize] };
         let pool = [1usize, 2, 4, 16][r.below(4) as usize];
         let ncalls = 1 + r.below(3);
-        let calls: Vec<char> = (0..ncalls).map(|_| ['d', 'd', 'd', 'p', 's', 't'][r.below(6) as usize]).collect();
+        let calls: Vec<char> = (0..ncalls).map(|_| ['d', 'd', 'r', 'p', 's', 't'][r.below(6) as usize]).collect();
         let mut faults = Vec::new();
         let mode = if gen == "faults" {
             if !tags.is_empty() {
@@ -180,7 +180,7 @@ fn exec_cmd(args: &[String]) {
                 _ => exec::Mode::Jitter(r.next()),
             }
         };
-        let next = if gen == "faults" { ['d', 'd', 'p', 's'][r.below(4) as usize] } else { 'd' };
+        let next = if gen == "faults" { ['d', 'r', 'p', 's'][r.below(4) as usize] } else { 'd' };
         let c = exec::ExecCase { map, pool, mode, calls, faults, next, regs };
         let obs = exec::observe(&c, &mut env);
         writeln!(out, "{} :: {}\t{}", c.head(), prog::to_text(&c.regs), obs).unwrap();
@@ -369,7 +369,7 @@ fn pool_cmd(args: &[String]) {
     let mut k = 0u64;
     let widths: Vec<u32> = if gen == "small" { vec![2, 3, 5] } else { (2..=16).collect() };
     for w in widths {
-        for cfg in ["user", "default", "batch", "async"] {
+        for cfg in ["user", "default", "batch", "async", "foreign"] {
             // pool exactly as wide as the stage, and a larger one; the default pool has one thread per CPU
             let sizes: Vec<usize> = if cfg == "default" { if (w as usize) <= cpus { vec![cpus] } else { vec![] } } else { vec![w as usize, 16.max(w as usize)] };
             for p in sizes {
